@@ -245,6 +245,10 @@ stack_types!(
     SA<R9<ANB<BV>>>, SZA<RS1<ANB<BV>>>,
     SAC<R9<ANB<BV>>, 8, 1>, SAC<R9<ANB<BV>>, 12, 3>,
     SZAC<RS2<ANB<BV>>, 6, 2>, SZAC<RS2<ANB<BV>>, 12, 3>,
+    // (the result type of `map` is whatever the library declares: the instantiations in which one or both
+    // const parameters are the defaults are accepted too, so that such a declaration still builds and is judged
+    // by its answers)
+    SAC<R9<ANB<BV>>, 8, 3>, SAC<R9<ANB<BV>>, 12, 1>, SZAC<RS2<ANB<BV>>, 6, 3>, SZAC<RS2<ANB<BV>>, 12, 2>,
     SAC<ANB<BV>, 12, 3>, SAC<ANB<BV>, 13, 0>, SAC<ANB<BV>, 10, 4>, SAC<ANB<BV>, 8, 1>,
     SAC<ANB<BV>, 6, 2>, SAC<ANB<BV>, 3, 0>, SAC<ANB<BV>, 1, 1>, SAC<ANB<BV>, 0, 0>,
     SZAC<ANB<BV>, 12, 3>, SZAC<ANB<BV>, 13, 0>, SZAC<ANB<BV>, 8, 1>,
